@@ -7,10 +7,12 @@
 //
 //   mg|mgr NL n_0 .. n_{NL-1} { A[n*n]  nf idx*  [P[n*nc] R[nc*n] unless last]  4 x (flag [M[n*n]]) }^NL
 //      napp { cycle cgc top crs  dlen d* }^napp        (slots: pre, post, peak, coarse; level 0 = finest)
+//   mgx ...            like mg, plus the result `Y n y*` of the independent recursive reference (refmg.hpp)
 //   mgd ...            the same at double (results printed as hex floats; conformance stream, no model counterpart)
 //   rate2d NL cycle cgc  the same measurement on 2-D Poisson (5-point stencil)
 //   rate NL cycle cgc  (double precision measurement, thorough tier only; no model counterpart)
 #include <forkcase.hpp>
+#include "refmg.hpp"
 #include <exact_q.hpp>
 #include <kernel/lafem/dense_vector.hpp>
 #include <kernel/lafem/sparse_matrix_csr.hpp>
@@ -135,8 +137,17 @@ static Solver::MultiGridAdaptCGC cgc(long long k)
   return k == 0 ? Solver::MultiGridAdaptCGC::Fixed : k == 1 ? Solver::MultiGridAdaptCGC::MinEnergy : Solver::MultiGridAdaptCGC::MinDefect;
 }
 
+static refmg::Mat ref_mat(const std::vector<Q>& d, std::size_t rows, std::size_t cols)
+{
+  refmg::Mat m(rows, refmg::Vec(cols));
+  for(std::size_t i = 0; i < rows; ++i) for(std::size_t j = 0; j < cols; ++j) m[i][j] = d[i*cols + j].v();
+  return m;
+}
+static refmg::Mat ref_mat(const std::vector<double>&, std::size_t, std::size_t) { return refmg::Mat(); }
+
+// with_ref: additionally run the independent recursive reference (refmg.hpp) and print its result as `Y n y*`
 template<typename DT>
-static void handle_mg(Cur& c, std::ostream& o)
+static void handle_mg(Cur& c, std::ostream& o, bool with_ref = false)
 {
   typedef LogMatrix<DT> Matrix; typedef typename Types<DT>::Vector Vector; typedef typename Types<DT>::Filter Filter;
   typedef LogTransfer<DT> Transfer;
@@ -151,23 +162,33 @@ static void handle_mg(Cur& c, std::ostream& o)
   // two passes are not possible on a token stream, so the level sizes are taken from the stream: the transfer of
   // level l needs n[l+1]; the protocol therefore lists all sizes first.
   for(Index l = 0; l < nl; ++l) n[l] = c.idx();
+  std::vector<refmg::Level> rlv(nl);
   for(Index l = 0; l < nl; ++l)
   {
-    mats.emplace_back(l, make_csr<DT>(n[l], n[l], read_q<DT>(c, n[l]*n[l])));
+    auto am = read_q<DT>(c, n[l]*n[l]);
+    mats.emplace_back(l, make_csr<DT>(n[l], n[l], am));
     filts.emplace_back(n[l]);
     auto fi = c.idxlist();
     for(auto i : fi) filts.back().add(Index(i), DT(0));
+    rlv[l].n = n[l];
+    if(with_ref) { rlv[l].A = ref_mat(am, n[l], n[l]); rlv[l].fidx.insert(fi.begin(), fi.end()); }
     if(l + 1 < nl)
     {
       auto p = read_q<DT>(c, n[l]*n[l+1]);
       auto r = read_q<DT>(c, n[l+1]*n[l]);
       trans.emplace_back(l, make_csr<DT>(n[l], n[l+1], p), make_csr<DT>(n[l+1], n[l], r));
+      if(with_ref) { rlv[l].P = ref_mat(p, n[l], n[l+1]); rlv[l].R = ref_mat(r, n[l+1], n[l]); }
     }
     static const char* roles[4] = {"a", "b", "k", "c"};
     for(int s = 0; s < 4; ++s)
     {
-      if(c.idx() != 0)
-        sol[l][s] = std::make_shared<MockSolver<DT>>(roles[s] + std::to_string(l), n[l], read_q<DT>(c, n[l]*n[l]));
+      rlv[l].has[s] = (c.idx() != 0);
+      if(rlv[l].has[s])
+      {
+        auto sm = read_q<DT>(c, n[l]*n[l]);
+        sol[l][s] = std::make_shared<MockSolver<DT>>(roles[s] + std::to_string(l), n[l], sm);
+        if(with_ref) rlv[l].s[s] = ref_mat(sm, n[l], n[l]);
+      }
     }
   }
   auto hier = std::make_shared<Hier>(nl);
@@ -208,6 +229,16 @@ static void handle_mg(Cur& c, std::ostream& o)
     o << " X " << dl;
     for(Index i = 0; i < dl; ++i) o << " " << Conv<DT>::str(vc(i));
     o << " S " << (st == Solver::Status::success ? 1 : 0);
+    if(with_ref)
+    {
+      // the level range as MultiGrid resolved it; everything else is independent of FEAT
+      refmg::Ref ref(rlv, int(cg), std::size_t(mg->get_crs_level()));
+      refmg::Vec rb(dl);
+      for(Index i = 0; i < dl; ++i) rb[i] = Q(d[i]).v();
+      refmg::Vec y = ref.cycle(int(cy) == 0 ? 0 : int(cy) == 1 ? 1 : 2, std::size_t(mg->get_top_level()), rb);
+      o << " Y " << y.size();
+      for(auto& q : y) { q.canonicalize(); o << " " << q.get_num() << "/" << q.get_den(); }
+    }
   }
   mg->done();
   hier->done();
@@ -447,6 +478,7 @@ static void handle(const verif::Tokens& t, std::ostream& o)
   Cur c(t);
   std::string op = c.str();
   if(op == "mg" || op == "mgr") handle_mg<Q>(c, o);
+  else if(op == "mgx" || op == "mgxr") handle_mg<Q>(c, o, true);
   else if(op == "mgd") handle_mg<double>(c, o);
   else if(op == "rate") handle_rate(c, o);
   else if(op == "rate2d") handle_rate2d(c, o);
